@@ -72,6 +72,7 @@ func plans(id, tier string) (Plan, bool) {
 			{Pkg: pkgV2, Harness: "c02_corpus", Params: "t=0.8;families=selfrepeat;ndocs=" + fmt.Sprint(pick(60, 431)), Shards: 16},
 			{Pkg: pkgV2, Harness: "c02_corpus", Params: "t=0.8;families=clusters;ndocs=" + fmt.Sprint(pick(60, 431)), Shards: 16},
 			{Pkg: pkgV2, Harness: "c02_corpus", Params: "t=0.8;docs=gnu;families=specialwords", Shards: 16},
+			{Pkg: pkgV2, Harness: "c02_corpus", Params: "t=0.8;families=resplit;ndocs=431", Shards: 16},
 			{Pkg: pkgV2, Harness: "c02_corpus", Params: "t=0.8;trace=all;families=exact,truncate,partnoise,edit1,periodic;ndocs=" + fmt.Sprint(pick(24, 200)), Shards: 16},
 			{Pkg: pkgV2, Harness: "c02_corpus", Params: "t=0.8;families=boundary;ndocs=" + fmt.Sprint(pick(100, 431)), Shards: 16},
 			{Pkg: pkgV2, Harness: "c02_corpus", Params: "t=0.9;families=boundary;ndocs=" + fmt.Sprint(pick(40, 431)), Shards: 16},
@@ -251,6 +252,7 @@ func plans(id, tier string) (Plan, bool) {
 			{Pkg: pkgV2, Harness: "c11_match", Params: "families=window;split=4", Shards: 16},
 			{Pkg: pkgV2, Harness: "c11_match", Params: "families=longnotice;split=3", Shards: 8},
 			{Pkg: pkgV2, Harness: "c11_match", Params: "families=hyphenwall,deeplines;split=3", Shards: 16},
+			{Pkg: pkgV2, Harness: "c11_match", Params: "families=bigvocab;split=3", Shards: 16},
 			{Pkg: pkgV2, Harness: "c11_match", Params: "families=exact,scenario,recase;shared=yes", Shards: 16},
 		}}, true
 	case "C12":
